@@ -296,7 +296,8 @@ def considerPEL(uh: UserHeader, config: Config) -> bool:
     if config.only or uh.isHidden() or not uh.isServiceable():
         # Ignore hidden/non-serviceable PELs check for the
         # --plid and --src option and --id and --bmc-id
-        if config.plid or config.src or config.bmcID or config.pelID:
+        if config.plid or config.src or config.bmcID or config.pelID or \
+                config.srcExcludeFile:
             return True
         return False
 
